@@ -52,6 +52,8 @@ func main() {
 		cmdRun(os.Args[2:])
 	case "check":
 		cmdCheck(os.Args[2:])
+	case "replay":
+		cmdReplay(os.Args[2:])
 	default:
 		fmt.Fprintln(os.Stderr, "unknown command", os.Args[1])
 		os.Exit(2)
@@ -402,7 +404,3 @@ func (x *Exec) effectiveContract(fn *ssa.Function, c *FuncContract) *FuncContrac
 	return m
 }
 
-func cmdCheck(args []string) {
-	fmt.Fprintln(os.Stderr, "check: not yet implemented")
-	os.Exit(3)
-}
